@@ -27,21 +27,21 @@ package channels
 //@ lemma [identity-frozen] {C02,C10,C19}: foreach E in (*) :: forall s State :: sameIdentity(s, step(s, E))
 
 // C11 ------------------------------------------------------------------------------------------
-//@ lemma [own-flag-only] {C11}: forall s State ::
+//@ lemma [own-flag-only] {C11,C08}: forall s State ::
 //@     step(s, PauseInitiator).ResponderPaused == s.ResponderPaused && step(s, ResumeInitiator).ResponderPaused == s.ResponderPaused &&
 //@     step(s, PauseResponder).InitiatorPaused == s.InitiatorPaused && step(s, ResumeResponder).InitiatorPaused == s.InitiatorPaused
 //@     -- pausing or resuming one party never changes the other party's flag
-//@ lemma [pause-resume-set-the-flag] {C11}: forall s State ::
+//@ lemma [pause-resume-set-the-flag] {C11,C08}: forall s State ::
 //@     (applied(s, PauseInitiator) ==> step(s, PauseInitiator).InitiatorPaused) && (applied(s, ResumeInitiator) ==> !step(s, ResumeInitiator).InitiatorPaused) &&
 //@     (applied(s, PauseResponder) ==> step(s, PauseResponder).ResponderPaused) && (applied(s, ResumeResponder) ==> !step(s, ResumeResponder).ResponderPaused)
-//@ lemma [resume-accepted-wherever-pause-is] {C11}: forall s State ::
+//@ lemma [resume-accepted-wherever-pause-is] {C11,C08}: forall s State ::
 //@     (applied(s, PauseInitiator) ==> applied(s, ResumeInitiator)) && (applied(s, PauseResponder) ==> applied(s, ResumeResponder))
 //@     -- a party that could pause in a status can resume in it: a flag set by a pause is never stuck because the resume is ignored there
 //@ lemma [ignored-pause-keeps-state] {C11}: foreach E in (PauseInitiator, PauseResponder, ResumeInitiator, ResumeResponder) :: forall s State ::
 //@     !applied(s, E) ==> step(s, E) == s -- a pause / resume request in a status where it is meaningless leaves the record as it was
 //@ lemma [only-pause-events-touch-the-initiator-flag] {C11}: foreach E in (*) except (PauseInitiator, ResumeInitiator) :: forall s State ::
 //@     step(s, E).InitiatorPaused == s.InitiatorPaused
-//@ lemma [only-pause-events-touch-the-responder-flag] {C11}: foreach E in (*) except (PauseResponder, ResumeResponder, DataLimitExceeded) :: forall s State ::
+//@ lemma [only-pause-events-touch-the-responder-flag] {C11,C08,C03}: foreach E in (*) except (PauseResponder, ResumeResponder, DataLimitExceeded) :: forall s State ::
 //@     step(s, E).ResponderPaused == s.ResponderPaused
 
 // C03 ------------------------------------------------------------------------------------------
@@ -354,6 +354,7 @@ package channels
 //@ lemma [limit-events] {C08}: forall s State, l uint64 ::
 //@     step(s, SetDataLimit, l).DataLimit == (applied(s, SetDataLimit, l) ? l : s.DataLimit) &&
 //@     (applied(s, DataLimitExceeded) ==> step(s, DataLimitExceeded).ResponderPaused && step(s, DataLimitExceeded).InitiatorPaused == s.InitiatorPaused)
+//@ lemma [finalization-flag-touched-only-by-its-event] {C03,C04,C08}: foreach E in (*) except (SetRequiresFinalization) :: forall s State :: step(s, E).RequiresFinalization == s.RequiresFinalization
 //@ lemma [limit-touched-only-by-its-event] {C08}: foreach E in (*) except (SetDataLimit) :: forall s State :: step(s, E).DataLimit == s.DataLimit
 
 //@ func (*channels.blockIndexCache).getValue {C07,C20}
